@@ -2,7 +2,6 @@
 
 use crate::ctx::{Local, Run, guard, panic_class};
 use crate::genm::Mat;
-use crate::json::J;
 use crate::oracle::Graph;
 use crate::rng::{Dig, Rng};
 use ldpc_toolbox::sparse::Node;
